@@ -458,10 +458,32 @@ func (w *World) canInline(fr *Frame, fn *ssa.Function) bool {
 			return false
 		}
 	}
-	// loops need invariants: only loop-free bodies are inlined
+	// loops need invariants: loop-free bodies are inlined; a small helper with simple (un-nested) loops is
+	// inlined too, its loops cut without invariant (what they write is forgotten at their heads), which is
+	// what the same loop would get if it were written in the caller
+	loops, size := 0, 0
 	for _, b := range fn.Blocks {
+		size += len(b.Instrs)
 		for _, s := range b.Succs {
 			if s.Dominates(b) {
+				loops++
+			}
+		}
+	}
+	if loops == 0 {
+		return true
+	}
+	if os.Getenv("GOAVC_INLINE_LOOPS") == "0" || fr.depth >= 2 || size > 80 || loops > 2 {
+		return false
+	}
+	if w.topContract != nil && len(w.topContract.UnknownPreserve) > 0 {
+		// the contract under verification states what calls without contract leave alone: such calls stay calls
+		return false
+	}
+	li := analyzeLoops(fn)
+	for h := range li.isHeader {
+		for _, b := range li.body[h] {
+			if b != h && li.isHeader[b] > 0 {
 				return false
 			}
 		}
